@@ -69,6 +69,10 @@ def main():
         del_demo()
         rc, out = sh("git apply %s" % os.path.join(os.path.abspath(src), "patch.diff"), wt)
         if rc:
+            # written against an earlier HEAD (before a fix: commit): fall back to a 3-way merge
+            rc, out = sh("git apply --3way %s && git reset -q" % os.path.join(os.path.abspath(src), "patch.diff"), wt)
+            meta["ran"].append("patch applied with --3way (it was written against an earlier HEAD)")
+        if rc:
             print("patch does not apply:\n" + out)
             return 2
         rc1, out1 = sh("go build ./... ", wt)
